@@ -220,6 +220,10 @@ class C16(Prop):
                     sim.stats["caller_swallowed_cancel_before_call"] += 1
             out["called"] = sim.now
             sim.event("call", ci)
+            if via_attribute:
+                # the wrapper object is kept as a class attribute (a shared helper) and reached through an instance: it is not a
+                # method and must not receive the instance
+                wrapped = type("Holder", (), {"call": wrapped})().call
             try:
                 if spec["outcome"] == "bad_call":
                     # the call itself does not bind: the wrapped function raises TypeError when invoked, before any coroutine exists
@@ -260,7 +264,9 @@ class C16(Prop):
             return dispatch(*a, **k)
 
         via_passthrough = s.chance(1, 5, "sync-passthrough-decorator")
+        via_attribute = s.chance(1, 5, "wrapper-kept-as-class-attribute")
         sim.program["wrapped_is_sync_passthrough"] = int(via_passthrough)
+        sim.program["wrapper_reached_through_instance_attribute"] = int(via_attribute)
         wrappers = {}
 
         def wrapper_for(spec):
